@@ -21,6 +21,7 @@
 //! Everything is a pure function of the tape: expansions use `engine::seeded_bytes` keyed by tape
 //! bytes; an all-zero key is never expanded.
 
+use crate::refimpl::Variant as _;
 use std::sync::OnceLock;
 
 use crate::engine::{mix, seeded_bytes, Tape};
@@ -488,7 +489,7 @@ pub fn tx_features_x(tx: &Transaction) -> Vec<String> {
             if o.witness.rangeproof.is_some() || o.witness.surjection_proof.is_some() {
                 f.push("hi-index:out-witness".into());
             }
-            if o.value.is_confidential() || o.nonce.is_confidential() || o.asset.is_confidential() {
+            if o.value.v_conf() || o.nonce.v_conf() || o.asset.v_conf() {
                 f.push("hi-index:confidential".into());
             }
             if o.script_pubkey.len() >= 0xfd {
